@@ -17,24 +17,24 @@ import (
 var pkgDirs = []string{".", "z", "z/simd"}
 
 type Engine struct {
-	repo     string
-	fset     *token.FileSet
-	prog     *ssa.Program
-	pkgs     map[string]*packages.Package // by dir key
-	spkgs    map[string]*ssa.Package
-	cfiles   map[string]*ContractFile
-	infos    map[string]*FuncInfo        // contract key -> info
-	byFn     map[*ssa.Function]*FuncInfo // resolved SSA function -> contract
-	fnOf     map[string]*ssa.Function    // contract key -> SSA function
-	layouts  map[string]*layout
-	sorts    map[string]bool
-	mapInfos map[string]*mapInfo
-	tkTypes  map[string]types.Type
-	subst    []map[string]types.Type
-	genSrc   map[string]string
+	repo       string
+	fset       *token.FileSet
+	prog       *ssa.Program
+	pkgs       map[string]*packages.Package // by dir key
+	spkgs      map[string]*ssa.Package
+	cfiles     map[string]*ContractFile
+	infos      map[string]*FuncInfo        // contract key -> info
+	byFn       map[*ssa.Function]*FuncInfo // resolved SSA function -> contract
+	fnOf       map[string]*ssa.Function    // contract key -> SSA function
+	layouts    map[string]*layout
+	sorts      map[string]bool
+	mapInfos   map[string]*mapInfo
+	tkTypes    map[string]types.Type
+	subst      []map[string]types.Type
+	genSrc     map[string]string
 	implements map[string]string
-	goarch   string
-	skipped  []*FuncContract // contracts for another GOARCH
+	goarch     string
+	skipped    []*FuncContract // contracts for another GOARCH
 }
 
 func pkgKeyOf(e *Engine, p *types.Package) string {
@@ -358,7 +358,9 @@ func (vc *VC) guardLocs(li *LockInv, self SV) []Loc {
 		case *types.Slice:
 			tk := typeKey(u.Elem())
 			vc.eng.tkTypes[tk] = u.Elem()
-			out = append(out, Loc{Space: 'E', TK: tk, Ref: inner.L[0], Desc: m.Expr + "[*]"})
+			vc.assume(sliceWF(inner.L[0], inner.L[1], inner.L[2], inner.L[3]))
+			out = append(out, Loc{Space: 'E', TK: tk, Ref: inner.L[0], Desc: m.Expr + "[*]",
+				WinLo: inner.L[1], WinLen: inner.L[3]})
 		case *types.Map:
 			mi := vc.eng.mapInfoOf(t)
 			out = append(out, Loc{Space: 'M', TK: mi.Key, Ref: inner.L[0], Desc: m.Expr + "[*]"})
@@ -469,14 +471,14 @@ func topConjuncts(g string) []string {
 // ---- verification of one function ----------------------------------------------------------
 
 type FuncResult struct {
-	Key    string
-	Fn     string
-	Obls   []*Obl
-	Err    string
-	VC     *VC
+	Key         string
+	Fn          string
+	Obls        []*Obl
+	Err         string
+	VC          *VC
 	Assumptions []string
-	SSAHash string
-	Trusted string
+	SSAHash     string
+	Trusted     string
 }
 
 func (e *Engine) verifyFunc(key string) (res *FuncResult) {
